@@ -12,6 +12,7 @@ import (
 	"log/slog"
 	"net/http"
 	"net/http/httptest"
+	"net/url"
 	"regexp"
 	"runtime"
 	"sort"
@@ -65,6 +66,9 @@ type acaseT struct {
 	// itself right before it fails (PreAt 1: a handler that had prepared a download)
 	PreCT *string `json:",omitempty"`
 	PreAt int     `json:",omitempty"`
+	// Tail: a last path segment captured by a :tail parameter, any bytes but '/' (percent-encoded on
+	// the wire); it reaches the body through req.URL.Path (RFC 9457 `instance`)
+	Tail bstr `json:",omitempty"`
 }
 
 // ocaseT: overlapping failing requests on one app. Request 0 is served on its own goroutine with a
@@ -353,6 +357,7 @@ func getApp(opts []optT) *builtApp {
 				after = append(after, handlerAt(2+nb+i))
 			}
 			a.GET(fmt.Sprintf("/f/%d/%d", n, nb), handlerAt(1+nb), app.WithBefore(before...), app.WithAfter(after...))
+			a.GET(fmt.Sprintf("/t/%d/%d/:tail", n, nb), handlerAt(1+nb), app.WithBefore(before...), app.WithAfter(after...))
 		}
 	}
 	offers := lastOffers(opts)
@@ -395,6 +400,18 @@ type obsT struct {
 // nb picks how many of the handlers before the main one are "before" handlers: derived from the case
 func (k acaseT) route() string {
 	nb := (k.Mask >> 8) % (k.Len - 1)
+	if k.Tail != "" {
+		return fmt.Sprintf("/t/%d/%d/%s", k.Len, nb, url.PathEscape(string(k.Tail)))
+	}
+	return fmt.Sprintf("/f/%d/%d", k.Len, nb)
+}
+
+// path is req.URL.Path of the case's request
+func (k acaseT) path() string {
+	nb := (k.Mask >> 8) % (k.Len - 1)
+	if k.Tail != "" {
+		return fmt.Sprintf("/t/%d/%d/%s", k.Len, nb, string(k.Tail))
+	}
 	return fmt.Sprintf("/f/%d/%d", k.Len, nb)
 }
 
@@ -626,9 +643,9 @@ func encErr(l *hx.Line, e errT, depth *int, caps *int, statuses map[int]bool) {
 	}
 	switch e.Kind {
 	case "new":
-		node(l, nil, nil, nil, false, func() { l.Tok("O").Str(e.Msg) }, leaf)
+		node(l, nil, nil, nil, false, func() { l.Tok("O").Str(jt(string(e.Msg))) }, leaf)
 	case "wrap":
-		node(l, nil, nil, nil, false, func() { l.Tok("P").Str(e.Msg) }, one(*e.Inner))
+		node(l, nil, nil, nil, false, func() { l.Tok("P").Str(jt(string(e.Msg))) }, one(*e.Inner))
 	case "join":
 		node(l, nil, nil, nil, false, func() { l.Tok("J") }, func() int {
 			l.Nat(len(e.Kids))
@@ -655,7 +672,8 @@ func encErr(l *hx.Line, e errT, depth *int, caps *int, statuses map[int]bool) {
 			n++
 		}
 		if e.HasCo {
-			code = &e.Code
+			cs := jt(string(e.Code))
+			code = &cs
 			n++
 		}
 		var det any
@@ -670,20 +688,20 @@ func encErr(l *hx.Line, e errT, depth *int, caps *int, statuses map[int]bool) {
 		if e.Inner != nil {
 			kids = one(*e.Inner)
 		}
-		node(l, st, code, det, e.HasDe, func() { l.Tok("O").Str(e.Msg) }, kids)
+		node(l, st, code, det, e.HasDe, func() { l.Tok("O").Str(jt(string(e.Msg))) }, kids)
 	case "valerr", "valerrptr":
 		st := 422
 		statuses[st] = true
 		code := "validation_error"
 		v := e.valErr()
 		*caps = 3
-		node(l, &st, &code, canonOf(v.Details()), true, func() { l.Tok("O").Str(v.Error()) },
-			one(errT{Kind: "new", Msg: errValidationText}))
+		node(l, &st, &code, canonOf(v.Details()), true, func() { l.Tok("O").Str(jt(v.Error())) },
+			one(errT{Kind: "new", Msg: bstr(errValidationText)}))
 	case "fielderr":
 		st := 422
 		statuses[st] = true
-		node(l, &st, nil, nil, false, func() { l.Tok("O").Str(e.build().Error()) },
-			one(errT{Kind: "new", Msg: errValidationText}))
+		node(l, &st, nil, nil, false, func() { l.Tok("O").Str(jt(e.build().Error())) },
+			one(errT{Kind: "new", Msg: bstr(errValidationText)}))
 	}
 }
 
@@ -714,7 +732,7 @@ func emitO(id string, k ocaseT, only int, st *hx.Stats) []string {
 }
 
 func lineA(id string, k acaseT, o obsT, answers []string, st *hx.Stats) string {
-	l := hx.NewLine(id).Tok("A").Tok(k.Wire).Str(k.route())
+	l := hx.NewLine(id).Tok("A").Tok(k.Wire).Str(jt(k.path()))
 	// the error tree goes to a side line first so that the statuses it mentions are known
 	el := hx.NewLine("")
 	depth, caps := 0, 0
